@@ -148,7 +148,7 @@ def run(rep):
                 ">= 10 nodes; distinct by source text")
     rep.assumptions = ["error *spans* are not compared here (C16 checks spans); kind and name are",
                        "the model's root environment is {std}, as load_source(with_stdlib=true)"]
-    vlib.prelude(rep, extra_modules=['RsjProps.C09Eval'])
+    vlib.prelude(rep, extra_modules=['RsjProps.C09Eval', 'RsjProps.C09Pipeline', 'RsjProps.C01Pipeline'])
     rng = rep.rng
     nbase = 250 if rep.tier == 'quick' else 6000
     gen = G.Gen(rng, max_depth=4)
@@ -179,6 +179,9 @@ def run(rep):
         c['key'] = c['src']
     io = vlib.impl([vlib.eval_line(c['src'], load=1) for c in cases])
     mo = vlib.model(['ana ' + G.to_sexp(c['ast']) for c in cases])
+    # the same source texts through the static stages of the whole-pipeline model (Lean lexer + parser + lowering + analysis)
+    import core_cmp as C
+    C.check_pipe_load(rep, 'c09:', [c['src'] for c in cases], io, label='generated + injected faults')
     base_ok = True
     for c, a, b in zip(cases, io, mo):
         pa = parse_ana(a)
@@ -228,6 +231,7 @@ def run(rep):
                 frame = rng.choice(['%s', 'local dead = %s; 0', 'if false then %s else 0', 'local f() = %s; 0', '{ inner:: %s }', '[%s][1:]'])
                 dup.append((name, frame % obj))
     douts = vlib.impl([vlib.eval_line(src, load=1) for _, src in dup])
+    C.check_pipe_load(rep, 'c09dup:', [src for _, src in dup], douts, label='field-name spellings')
     for (name, src), a in zip(dup, douts):
         rep.bump('dup-spelling')
         rep.count('c09dup:' + src, True)
@@ -255,6 +259,11 @@ def replay(r):
         b = vlib.model(['ana ' + r['replay']['sexp']])[0]
         print('model:', b)
         return 0 if a == b else 1
+    if 'pipe' in r['replay']:
+        import core_cmp as C
+        c = vlib.model(['pipe load ' + vlib.hx(src)])[0]
+        print('pipe :', c)
+        return 0 if c.startswith('unsupported') or C.norm_static(a) == C.norm_static(c) else 1
     exp = r['replay'].get('expected')
     if exp:
         print('expected:', exp)
